@@ -277,10 +277,12 @@ func switchThreading(v *VM) *val.Val {
 			v.Push(vl)
 
 		case OP_OBJ_LOAD:
-			idx, w := v.readMediumInt(v.pc)
+			name, w := v.readConst(v.pc)
 			v.pc += w
 			o := v.Pop().Obj()
-			v.Push(o.V[idx])
+			// 对象类型相等不考虑字段顺序, 所以必须按名称而不是静态类型的下标取值
+			vl, _ := o.Get(name.(string))
+			v.Push(vl)
 
 		// -----------------------------------------------
 		case OP_LEN_STR:
